@@ -6,6 +6,7 @@ use proptest::prelude::*;
 pub mod programs;
 pub mod cases;
 pub mod graphs;
+pub mod values;
 
 /// Boundary words B (DESIGN §4.1).
 pub const BOUNDARY: &[i64] = &[
